@@ -16,6 +16,20 @@ func checkC03(c *Check) {
 	runRows(c, "MC_Flow", stdCfg(c.Tier, "Specified", "Bounded"), func(row *Row) {
 		replayProgRow(c, row, progOpts{})
 	})
+	// the witnesses of the recorded findings of this property: each must still reproduce (and is then
+	// reported as KNOWN-FINDING, not as a violation)
+	for _, src := range []string{`return OPTIMIZE;`, `x = OPTIMIZE; if ( x ) { return 1; } return 2;`, `return type(√9);`} {
+		var cls [2]string
+		for mi, opt := range []bool{true, false} {
+			if m, err := newMachine(src, nil, nil, opt, nil); err == nil {
+				cls[mi] = m.exec(nil).class()
+			}
+		}
+		c.count("witness|"+src, true)
+		if cls[0] != cls[1] {
+			c.disagree(&Disagreement{Kind: "opt-diff", Script: src, Expected: cls[1], Got: cls[0]})
+		}
+	}
 	runExprRows(c, func(ops []string) bool {
 		// constant arithmetic, comparisons and roots: what the optimizer rewrites
 		for _, o := range ops {
